@@ -25,20 +25,27 @@ def closed_form(t, r, center, width, scale, SQRT2):
     return scale * 0.5 * (1 + L.fn("erf", beta - alpha)) * L.fn("exp", alpha * (alpha - 2 * beta))
 
 
-def kernel_term(t, r, center, width, scale, SQRT2, S):
-    """The closed form, written in the numerically stable shape of the branch the path is on.
-
-    For beta - alpha < -1 the documented closed form is rewritten with
-        1/2 exp(α(α-2β)) (1 + erf(β-α)) = 1/2 erfcx(α-β) exp(-β²)
-    which is the lemma proved once, for all α, β, by the contract ClosedFormBranchLemma."""
-    if not S.symbolic:
-        return closed_form(t, r, center, width, scale, SQRT2)
+def kernel_shapes(t, r, center, width, scale, SQRT2, S):
+    """The closed form from the property statement, in the two shapes that are equal for all α, β
+        1/2 exp(α(α-2β)) (1 + erf(β-α)) = 1/2 erfcx(α-β) exp(-β²)        (ClosedFormBranchLemma, proved once, U).
+    The kernel switches between them for numerical reasons; an obligation built with `any_shape` accepts either shape for
+    every Gaussian, so it does not depend on *where* the code switches (moving the switch-over is a harmless edit).
+    Natively the form is evaluated in the shape that is numerically sound at the point."""
     alpha = (r * width) / SQRT2
     beta = (t - center) / (width * SQRT2)
     thresh = beta - alpha
-    if _decide(thresh < -1, S):
-        return scale * 0.5 * L.fn("erfcx", -thresh) * L.fn("exp", -beta * beta)
-    return scale * 0.5 * (1 + L.fn("erf", thresh)) * L.fn("exp", alpha * (alpha - 2 * beta))
+    if not S.symbolic:
+        if thresh < 0:
+            from scipy.special import erfcx as _erfcx
+
+            return [scale * 0.5 * _erfcx(-thresh) * np.exp(-beta * beta)]
+        return [closed_form(t, r, center, width, scale, SQRT2)]
+    return [closed_form(t, r, center, width, scale, SQRT2), scale * 0.5 * L.fn("erfcx", -thresh) * L.fn("exp", -beta * beta)]
+
+
+def any_shape(got, base, shape_lists, finish=lambda x: x):
+    """got == finish(base + one shape per term), for some choice of shapes (all choices are equal by the lemma)."""
+    return L.or_(*[L.eq(got, finish(base + L.sum(list(choice)))) for choice in itertools.product(*shape_lists)])
 
 
 def backsweep_term(t, r, center, scale, period):
@@ -144,14 +151,15 @@ class KernelOnIndex(Contract):
         cells = []
         for ti in range(t):
             for ri in range(r):
-                want = inp["m0"][ti, ri]
+                base = inp["m0"][ti, ri]
+                shapes = []
                 for gi in range(g):
-                    want = want + kernel_term(inp["times"][ti], inp["rates"][ri], inp["centers"][gi], inp["widths"][gi], inp["scales"][gi], gm.SQRT2, S)
+                    shapes.append(kernel_shapes(inp["times"][ti], inp["rates"][ri], inp["centers"][gi], inp["widths"][gi], inp["scales"][gi], gm.SQRT2, S))
                     if case["backsweep"]:
                         valid = _decide(abs(inp["rates"][ri]) * inp["period"] > 0.001, S)
                         if valid:
-                            want = want + backsweep_term(inp["times"][ti], inp["rates"][ri], inp["centers"][gi], inp["scales"][gi], inp["period"])
-                cells.append(L.eq(out[ti, ri], want))
+                            base = base + backsweep_term(inp["times"][ti], inp["rates"][ri], inp["centers"][gi], inp["scales"][gi], inp["period"])
+                cells.append(any_shape(out[ti, ri], base, shapes))
         yield "entry_is_initial_plus_sum_over_gaussians_of_closed_form_on_both_branches", L.and_(*cells)
 
 
@@ -377,9 +385,7 @@ class ImplementationPerIndex(Contract):
         tot = L.sum(inp["sv"])
         cells = []
         for i in range(ni):
-            want = L.sum([kernel_term(inp["times"][0], inp["rates"][0], inp["centers_i"][i][j], inp["widths_i"][i][j], inp["sv"][j], gm.SQRT2, S) for j in range(g)])
-            if case["normalize"]:
-                want = want / tot
+            shapes = [kernel_shapes(inp["times"][0], inp["rates"][0], inp["centers_i"][i][j], inp["widths_i"][i][j], inp["sv"][j], gm.SQRT2, S) for j in range(g)]
             got = out["M"][i, 0, 0] if out["dep"] else out["M"][0, 0]
-            cells.append(L.eq(got, want))
+            cells.append(any_shape(got, 0, shapes, (lambda x: x / tot) if case["normalize"] else (lambda x: x)))
         yield "matrix_at_index_i_is_kernel_with_effective_centre_and_width_of_index_i", L.and_(*cells)
